@@ -606,7 +606,13 @@ impl Sparse<f64> {
             r -= s.clone();
 
             resid = r.norm_2() / normb;
-            if resid <= tol { return Ok( i ); } 
+            if resid <= tol {
+                // The recurrence residual drifts and, after a near breakdown (ep or delta tiny but not
+                // exactly zero), is meaningless: confirm with the true residual and carry on from it
+                r = b.clone() - self.multiply( x );
+                resid = r.norm_2() / normb;
+                if resid <= tol { return Ok( i ); }
+            }
         }
         Err(resid)
     }
